@@ -189,6 +189,7 @@ def literal_stream(ctx, r):
 SPECIAL_DESCS = ['UBER TRIP', 'uber trip 12.50', 'SAY "HI" STORE', "JOE'S DINER #45", 'A\\B IMPORTS', 'SHOP [WEB] 0042', 'AMAZON.COM*MK1',
                  'NETFLIX  COM', 'LYFT RIDE 1', 'COSTCO WHSE #123', 'TAB\tSEP', 'CAFÉ ROMA', 'SEATTLE COFFEE', 'X', 'PAYPAL *UBER',
                  # merchants as statements print them outside ASCII: BMP (kana, kanji, symbols) and beyond it (U+20BB7, emoji)
+                 'ACH\x1cPAYROLL', 'WHOLEFDS\u2028MKT 12', 'A\x0bB STORE', 'NEL\x85X', 'FORM\x0cFEED CO', 'PARA\u2029GRAPH', 'RS\x1eUNIT\x1dGS',
                  '\U00020bb7野家 SHIBUYA', '\U0001f600 CAFE 12', 'CAFE \u2615 ROMA', 'スターバックス 渋谷', 'SQ *\U0001f355 PIZZA', 'ÅNGSTRÖM №5']
 
 
@@ -245,6 +246,13 @@ def gen_pattern(r, desc, structured=False):
     sf = structured_forms(r, tok, other, words, hit)
     if r.random() < (0.6 if structured else 0.1):
         return r.choice(sf)()
+    lineish = [ch for ch in desc if ch in '\x0b\x0c\x1c\x1d\x1e\x85\u2028\u2029']
+    if lineish and r.random() < 0.7:
+        # characters that SOME line splitters treat as line ends (str.splitlines) and the CSV reader, the rules reader and `re` do not: they are
+        # ordinary characters of a pattern cell, a name or a tag
+        c = r.choice(lineish)
+        i = desc.index(c)
+        return r.choice([desc[max(0, i - 3):i + 4], c, desc.split(' ')[0], '[' + c + ']', desc[max(0, i - 2):i] + '(' + c + '|\\s)+' + desc[i + 1:i + 3]])
     wide = [ch for ch in desc if ord(ch) > 127]
     if wide and r.random() < 0.6:
         # the pattern names the characters of the description that are not ASCII: alone, in a class, next to a word
